@@ -1,2 +1,119 @@
-/-! Line-protocol driver of the Fifo model (stub). -/
-def main : IO Unit := pure ()
+import SoxrModel.Fifo.Model
+import SoxrModel.Fifo.Footprint
+/-!
+# `soxr_fifo`: line-protocol driver of the byte-level FIFO model and of the buffer-footprint model
+
+One op per line on stdin, one canonical line on stdout.  `harness/fifo/micro.c` executes the same ops on the real
+`fifo.h` and prints the same lines; `checks/c07.py` diffs them.
+
+FIFO ops (the block is `List UInt8`, uninitialised memory is 0 — never observed: both sides only ever look at bytes
+that were written):
+```
+create <item_size> <fifo_min>     fifo_create, with FIFO_MIN as the real header was compiled (`gen` prints the tree's value)
+reserve <n>                       fifo_reserve(n); the caller then fills the n items with the next bytes of the test stream
+write <n>                         fifo_write(n, next bytes of the test stream)
+read <n>                          fifo_read(n, NULL); prints the FNV-1a hash of the bytes at the returned pointer
+trim_to <n> | trim_by <n> | clear | dump
+```
+answer: `b=<begin> e=<end> a=<allocation> r=<offset|null|-> occ=<fifo_occupancy> h=<hash|->`.
+
+Footprint ops:
+```
+variant                           which variant of soxr.c the model follows (Variant.current)
+fp <ch> <isz> <osz> <iSplit> <oSplit> <hasIn> <flushReq> <useIdone> <ilen0> <olen> <iForO> <d:sup>…
+```
+answer: `fp idone=<n> odone=<n> bad=<none | obj,off,len,r|w,size>` — the first access outside the caller's objects
+that `Variant.current` makes for that call (each iteration: every channel delivers `d`, the input function then
+supplies `sup`).
+-/
+namespace Soxr.Fifo.Main
+open Soxr.Fifo
+
+/-- byte `k` of the test stream. -/
+def streamByte (k : Nat) : UInt8 := UInt8.ofNat ((k * 167 + 13) % 251)
+
+def streamBytes (start n : Nat) : List UInt8 := (List.range' start n).map streamByte
+
+def fnv (bytes : List UInt8) : UInt64 :=
+  bytes.foldl (fun h b => (h ^^^ b.toUInt64) * 0x100000001B3) 0xCBF29CE484222325
+
+structure DSt where
+  f : Fifo UInt8 := { data := [], allocation := 0, itemSize := 1, bgn := 0, end_ := 0 }
+  fifoMin : Nat := Generated.fifoMin
+  w : Nat := 0          -- bytes of the test stream used so far
+
+def junk : Nat → UInt8 := fun _ => 0
+
+def line (f : Fifo UInt8) (r : String) (h : String) : String :=
+  s!"b={f.bgn} e={f.end_} a={f.allocation} r={r} occ={occupancy f} h={h}"
+
+def nat (s : String) : Nat := s.toNat?.getD 0
+
+def objName : Footprint.Obj → String
+  | .inBuf _ => "inBuf"
+  | .inPtrs _ => "inPtrs"
+  | .inCh _ c => s!"inCh{c}"
+  | .outBuf => "outBuf"
+  | .outPtrs => "outPtrs"
+  | .outCh c => s!"outCh{c}"
+  | .wild => "wild"
+
+def parseIter (t : String) : Footprint.Iter :=
+  match t.splitOn ":" with
+  | [d, s] => (fun _ => nat d, nat s)
+  | _ => (fun _ => 0, 0)
+
+def step (d : DSt) (ln : String) : DSt × Option String :=
+  let toks := (ln.trimAscii.toString.splitOn " ").filter (· ≠ "")
+  match toks with
+  | ["gen"] => (d, some s!"gen fifoMin={Generated.fifoMin} ptrSize={Generated.ptrSize}")
+  | ["create", sz, fm] =>
+    let f := create (nat fm) junk (nat sz)
+    ({ d with f := f, fifoMin := nat fm, w := 0 }, some (line f "-" "-"))
+  | ["reserve", n] =>
+    match reserve d.fifoMin junk d.f (nat n) with
+    | none => (d, some "loop")
+    | some (f1, off) =>
+      let len := nat n * d.f.itemSize
+      let f2 := store f1 off (streamBytes d.w len)
+      ({ d with f := f2, w := d.w + len }, some (line f2 (toString off) "-"))
+  | ["write", n] =>
+    let len := nat n * d.f.itemSize
+    match write d.fifoMin junk d.f (nat n) (some (streamBytes d.w len)) with
+    | none => (d, some "loop")
+    | some (f2, off) => ({ d with f := f2, w := d.w + len }, some (line f2 (toString off) "-"))
+  | ["read", n] =>
+    match read d.f (nat n) with
+    | (f1, some off) => ({ d with f := f1 }, some (line f1 (toString off) (toString (fnv (bytesAt f1 off (nat n * d.f.itemSize))))))
+    | (f1, none) => ({ d with f := f1 }, some (line f1 "null" "-"))
+  | ["trim_to", n] => let f1 := trimTo d.f (nat n); ({ d with f := f1 }, some (line f1 "-" "-"))
+  | ["trim_by", n] => let f1 := trimBy d.f (nat n); ({ d with f := f1 }, some (line f1 "-" "-"))
+  | ["clear"] => let f1 := clear d.f; ({ d with f := f1 }, some (line f1 "-" "-"))
+  | ["dump"] => (d, some (line d.f "-" (toString (fnv (contents d.f)))))
+  | ["variant"] =>
+    let v := Footprint.Variant.current
+    (d, some s!"variant ptrReadAlways={if v.ptrReadAlways then 1 else 0} pullAdvancesArray={if v.pullAdvancesArray then 1 else 0}")
+  | "fp" :: ch :: isz :: osz :: iS :: oS :: hasIn :: fr :: ui :: ilen0 :: olen :: iForO :: its =>
+    let c : Footprint.Cfg := { ch := nat ch, isz := nat isz, osz := nat osz, iSplit := iS == "1", oSplit := oS == "1" }
+    let k : Footprint.Call := { hasIn := hasIn == "1", flushReq := fr == "1", useIdone := ui == "1", ilen0 := nat ilen0, olen := nat olen }
+    let r := Footprint.process Footprint.Variant.current c k (nat iForO) false (its.map parseIter)
+    let bad := match Footprint.firstBad c k.ilen0 k.olen r.acc with
+      | none => "none"
+      | some a => s!"{objName a.obj},{a.off},{a.len},{if a.write then "w" else "r"},{Footprint.objSize c k.ilen0 k.olen a.obj}"
+    (d, some s!"fp idone={r.idone} odone={r.odone} bad={bad}")
+  | [] => (d, none)
+  | _ => (d, some "bad-op")
+
+partial def loop (h : IO.FS.Stream) (out : IO.FS.Stream) (d : DSt) : IO Unit := do
+  let ln ← h.getLine
+  if ln.isEmpty then return ()
+  let (d', o) := step d ln
+  match o with
+  | some s => out.putStrLn s
+  | none => pure ()
+  loop h out d'
+
+end Soxr.Fifo.Main
+
+def main : IO Unit := do
+  Soxr.Fifo.Main.loop (← IO.getStdin) (← IO.getStdout) {}
